@@ -454,6 +454,8 @@ func anywhere(r rune, p *Parser) stateFn {
 			p.exit()
 			p.exit = nil
 		}
+		// the string is over, no ST will follow
+		p.ignoreST = false
 		p.execute(r)
 		return ground
 	case r == 0x1B:
@@ -799,9 +801,10 @@ func dcsPassthrough(r rune, p *Parser) stateFn {
 // that enabled me to derive this state diagram have been as subtle as
 // that.
 func escape(r rune, p *Parser) stateFn {
-	defer func() {
-		p.ignoreST = false
-	}()
+	// ignoreST only concerns the character right after the ESC that ended
+	// a string
+	ignoreST := p.ignoreST
+	p.ignoreST = false
 	switch {
 	case in(r, 0x00, 0x17), r == 0x19, in(r, 0x1C, 0x1F):
 		p.execute(r)
@@ -817,7 +820,7 @@ func escape(r rune, p *Parser) stateFn {
 		p.escapeDispatch(r)
 		return ground
 	case r == 0x5C:
-		if p.ignoreST {
+		if ignoreST {
 			return ground
 		}
 		p.escapeDispatch(r)
@@ -826,11 +829,14 @@ func escape(r rune, p *Parser) stateFn {
 		return ss3
 	case r == 0x50:
 		p.clear()
+		p.ignoreST = true
 		return dcsEntry
 	case r == 0x58, r == 0x5E:
+		p.ignoreST = true
 		return sosPm
 	case r == 0x5F:
 		p.exit = p.apcUnhook
+		p.ignoreST = true
 		return apc
 	case r == 0x5B:
 		p.clear()
@@ -963,6 +969,8 @@ func oscString(r rune, p *Parser) stateFn {
 	case r == 0x07:
 		p.exit()
 		p.exit = nil
+		// the string is over, no ST will follow
+		p.ignoreST = false
 		return ground
 	case in(r, 0x00, 0x17), r == 0x19, in(r, 0x1C, 0x1F):
 		// ignore
